@@ -154,7 +154,9 @@ type slot struct {
 func (s *slot) name() string { return s.pre + s.addr + s.post }
 
 type gstate struct {
-	c        *Case
+	c        *Case // configuration, keys and initial layout of THIS wallet
+	w        int   // 0 = the first wallet, 1 = the twin
+	acts     *[]Action
 	m        *model
 	slots    []*slot
 	dflt     string
@@ -162,6 +164,14 @@ type gstate struct {
 	phantoms []string
 	lastReq  []string
 }
+
+// add appends an action for this wallet to the (shared, interleaved) action sequence.
+func (g *gstate) add(a Action) {
+	a.W = g.w
+	*g.acts = append(*g.acts, a)
+}
+
+func (g *gstate) full() bool { return len(*g.acts) >= maxActs }
 
 func (g *gstate) exists(p string) bool { return g.m.vfs[p] != nil }
 func (g *gstate) isRegular(p string) bool {
@@ -188,7 +198,7 @@ func (g *gstate) emit(files []File, acts bool) {
 		}
 		if acts {
 			ff := f
-			g.c.Acts = append(g.c.Acts, Action{Op: "write", File: &ff})
+			g.add(Action{Op: "write", File: &ff})
 		} else {
 			g.c.Files = append(g.c.Files, f)
 		}
@@ -256,6 +266,9 @@ func nearMissName(rt *rapid.T, pre, addr, post string) string {
 	}
 }
 
+// contents of a per-key password file that is present but holds no visible character
+var blankContents = []string{"", "", "\n", "\n", " ", "\r\n", "\t \n", "   ", "\n\n"}
+
 var garbage = []string{"", "{}", "not a key file", `{"version":3}`, `{"id":"6c3a26f2-1b40-4b0a-9d4b-6a2d3a4c1c11","version":3,"crypto":{"kdf":"scrypt"}}`, "= = =", "[", "\x00\x01\x02"}
 
 // pwPlan picks how the password for a key file is provided. It returns the mode, the
@@ -268,7 +281,7 @@ func (g *gstate) pwPlan(rt *rapid.T, meta bool, pwPath string) (mode, content, p
 	if meta {
 		noprop = 8
 	}
-	mode = weighted(rt, "pwMode", "perkey", 36, "padded", 22, "absent", 12, "dangling", 8, "dir", 6, "wrong", 8, "noprop", noprop)
+	mode = weighted(rt, "pwMode", "perkey", 32, "padded", 20, "blank", 12, "absent", 12, "dangling", 8, "dir", 6, "wrong", 8, "noprop", noprop)
 	if (mode == "absent" || mode == "dir") && g.exists(pwPath) {
 		mode = "perkey" // something is already at that path: overwrite it rather than pretend it is absent
 	}
@@ -278,6 +291,25 @@ func (g *gstate) pwPlan(rt *rapid.T, meta bool, pwPath string) (mode, content, p
 	switch mode {
 	case "perkey":
 		return mode, base, base
+	case "blank":
+		// The per-key password file is PRESENT but empty or white space only.  Documented
+		// reading (config.md: passwordTrimSpace "trim leading/trailing whitespace (such as a
+		// newline) from the password when loaded from file"; defaultPasswordFile is used "if one
+		// is not specified individually for the key"): with trimming the password is the EMPTY
+		// password, without trimming it is the file content byte for byte (a file holding "\n"
+		// is the password "\n") - in neither case is the default password file consulted.
+		content = pick(rt, "blankContent", blankContents)
+		usable, other := content, strings.TrimSpace(content)
+		if cfg.Trim {
+			usable, other = other, content
+		}
+		if usable == other {
+			other = g.dflt // the tempting wrong answer: the default password
+		}
+		if pct(rt, 15, "blankWrongWay") {
+			return mode, content, other
+		}
+		return mode, content, usable
 	case "padded":
 		pre := pick(rt, "padPre", []string{"", "", " ", "\t"})
 		post := pick(rt, "padPost", []string{"\n", "\n", "\r\n", " \n", "  "})
@@ -358,7 +390,7 @@ func (g *gstate) slotFiles(rt *rapid.T, s *slot, kind string) []File {
 	}
 	mode, content, password := g.pwPlan(rt, f != fmtNone, s.pwPath)
 	switch mode {
-	case "perkey", "padded", "wrong":
+	case "perkey", "padded", "wrong", "blank":
 		c := content
 		out = append(out, File{Path: s.pwPath, Text: &c})
 	case "dangling":
@@ -439,7 +471,7 @@ func (g *gstate) target(rt *rapid.T) string {
 }
 
 func (g *gstate) request(rt *rapid.T) {
-	if len(g.c.Acts) >= maxActs {
+	if g.full() {
 		return
 	}
 	g.requestFor(rt, g.target(rt))
@@ -458,12 +490,12 @@ func (g *gstate) requestFor(rt *rapid.T, addr string) {
 	default:
 		a.Op = "walletfile"
 	}
-	g.c.Acts = append(g.c.Acts, a)
+	g.add(a)
 	g.lastReq = append(g.lastReq, addr)
 }
 
 func (g *gstate) mutate(rt *rapid.T) {
-	if len(g.c.Acts) >= maxActs {
+	if g.full() {
 		return
 	}
 	cfg := g.c.Cfg
@@ -498,9 +530,9 @@ func (g *gstate) mutate(rt *rapid.T) {
 		switch weighted(rt, "followUp", "none", 3, "noticed", noticed, "direct", 2) {
 		case "noticed":
 			if cfg.Listener && pct(rt, 70, "viaListener") {
-				g.c.Acts = append(g.c.Acts, Action{Op: "settle"})
+				g.add(Action{Op: "settle"})
 			} else {
-				g.c.Acts = append(g.c.Acts, Action{Op: "refresh"})
+				g.add(Action{Op: "refresh"})
 			}
 			g.requestFor(rt, s.addr)
 		case "direct":
@@ -509,7 +541,7 @@ func (g *gstate) mutate(rt *rapid.T) {
 	case "default":
 		d := g.dflt
 		if pct(rt, 50, "changeDefault") {
-			d = "other-default"
+			d = pick(rt, "otherDefault", []string{"other-default", "other-default", "", "\n"})
 		}
 		g.emit([]File{{Path: "default.pw", Text: &d}}, true)
 	case "extra":
@@ -520,7 +552,7 @@ func (g *gstate) mutate(rt *rapid.T) {
 		if s.pwPath == "" || (g.exists(s.pwPath) && g.m.vfs[s.pwPath].Dir) {
 			return
 		}
-		t := pick(rt, "newPw", []string{"changed", "s3cret-0", "pass word-1\n", g.dflt})
+		t := pick(rt, "newPw", []string{"changed", "s3cret-0", "pass word-1\n", g.dflt, "", "\n", " \t"})
 		g.emit([]File{{Path: s.pwPath, Text: &t}}, true)
 	}
 }
@@ -551,25 +583,12 @@ func (g *gstate) extraFile(rt *rapid.T, s *slot) []File {
 	return []File{{Path: p, V3: &V3Spec{Key: s.key, Pw: pw, KDF: kdfSc}}}
 }
 
-// genCase draws a configuration, a directory and (through rapid's state machine) a
-// sequence of actions.  The second result is the set of generated near-miss names.
-func genCase(rt *rapid.T) (Case, map[string]bool) {
-	c := &Case{Cfg: genCfg(rt)}
-	g := &gstate{c: c, near: map[string]bool{}}
-	n := 2 + unif(rt, 5, "addresses")
-	idx := make([]int, len(pool))
-	for i := range idx {
-		idx[i] = i
-	}
-	perm := rapid.Permutation(idx).Draw(rt, "keys")
-	for i := 0; i < n; i++ {
-		c.Keys = append(c.Keys, pool[perm[i]])
-	}
-	if pct(rt, 30, "foreignKey") {
-		c.Keys = append(c.Keys, pool[perm[n]]) // a key that owns no slot
-	}
+// populate draws the slots of one wallet and its initial layout.
+func (g *gstate) populate(rt *rapid.T, n int) {
+	c := g.c
 	g.m = newModel(c, "/ROOT")
-	g.dflt = pick(rt, "defaultPw", []string{"dflt-pass 1", "dflt-pass 1", "default", "dflt-pass 1\n"})
+	// the default password file may itself be empty / white space only (the empty password, or - trimming off - "\n" verbatim)
+	g.dflt = weighted(rt, "defaultPw", "dflt-pass 1", 8, "default", 4, "dflt-pass 1\n", 4, "", 2, "\n", 1, " ", 1)
 	if c.Cfg.Default && pct(rt, 92, "defaultPresent") {
 		d := g.dflt
 		g.emit([]File{{Path: "default.pw", Text: &d}}, false)
@@ -586,28 +605,75 @@ func genCase(rt *rapid.T) (Case, map[string]bool) {
 			g.emit(g.extraFile(rt, s), false)
 		}
 	}
+}
+
+// genCase draws a configuration, a directory and (through rapid's state machine) a
+// sequence of actions.  The second result is the set of generated near-miss names.
+// One case in four has a twin: a second wallet built from the same Config variable.
+func genCase(rt *rapid.T) (Case, map[string]bool) {
+	c := &Case{Cfg: genCfg(rt)}
+	var acts []Action
+	g := &gstate{c: c, acts: &acts, near: map[string]bool{}}
+	n := 2 + unif(rt, 5, "addresses")
+	idx := make([]int, len(pool))
+	for i := range idx {
+		idx[i] = i
+	}
+	perm := rapid.Permutation(idx).Draw(rt, "keys")
+	for i := 0; i < n; i++ {
+		c.Keys = append(c.Keys, pool[perm[i]])
+	}
+	if pct(rt, 30, "foreignKey") {
+		c.Keys = append(c.Keys, pool[perm[n]]) // a key that owns no slot
+	}
+	g.populate(rt, n)
+	gs := []*gstate{g}
+	// F2, caller-owned memory: what the caller does with its Config variable afterwards
+	c.Scribble = weighted(rt, "scribbleBeforeInit", "", 85, "zero", 6, "decoy", 9)
+	if pct(rt, 25, "twin") {
+		// the twin serves the SAME addresses from its own directory under its own configuration
+		tc := &Case{Cfg: genCfg(rt), Keys: c.Keys}
+		g2 := &gstate{c: tc, w: 1, acts: &acts, near: g.near}
+		g2.populate(rt, n)
+		gs = append(gs, g2)
+		c.Twin = &Twin{LateInit: pct(rt, 40, "lateInit")}
+	}
 	// one state-machine action whose kind is drawn with explicit weights (rapid picks
 	// among several actions with a bias towards the first names)
 	step := func(rt *rapid.T) {
+		g := gs[0]
+		if len(gs) > 1 {
+			g = gs[unif(rt, 2, "wallet")]
+		}
 		settle := 0
-		if c.Cfg.Listener {
+		if g.c.Cfg.Listener {
 			settle = 8
 		}
-		switch op := weighted(rt, "step", "request", 50, "accounts", 14, "refresh", 10, "mutate", 18, "settle", settle); op {
+		switch op := weighted(rt, "step", "request", 50, "accounts", 14, "refresh", 10, "mutate", 18, "settle", settle, "scribble", 4); op {
 		case "request":
 			g.request(rt)
 		case "mutate":
 			g.mutate(rt)
+		case "scribble":
+			if !g.full() {
+				acts = append(acts, Action{Op: op, Mode: pick(rt, "scribbleMode", []string{"zero", "decoy"})})
+			}
 		default:
-			if len(c.Acts) < maxActs {
-				c.Acts = append(c.Acts, Action{Op: op})
+			if !g.full() {
+				g.add(Action{Op: op})
 			}
 		}
 	}
 	actions := map[string]func(*rapid.T){"step": step}
 	rt.Repeat(actions)
-	if pct(rt, 60, "finalAccounts") {
-		c.Acts = append(c.Acts, Action{Op: "accounts"})
+	for _, g := range gs {
+		if pct(rt, 60, "finalAccounts") {
+			g.add(Action{Op: "accounts"})
+		}
+	}
+	c.Acts = acts
+	if c.Twin != nil {
+		c.Twin.Cfg, c.Twin.Files = gs[1].c.Cfg, gs[1].c.Files
 	}
 	return *c, g.near
 }
